@@ -399,6 +399,17 @@ def main(argv):
         for k, v in r["distribution"].items():
             distribution[f"{profile}:{k}" if len(profiles) > 1 else k] = v
 
+    # For C14 the independent decoder *is* the property's oracle: a generated container on which the Lean
+    # decoder / re-encoder does not agree with the bytes the library wrote (or read) is a failing input.
+    if cfg.get("disagreement_is_failure"):
+        have = {f["case"] for f in all_fail}
+        for d in all_dis:
+            if d["case"] in have:
+                continue
+            have.add(d["case"])
+            fi = first_diff(d["impl"], d["model"])
+            all_fail.append({"case": d["case"], "sig": "independent-decoder-differs", "profile": profiles[0], "op": d.get("op", ""),
+                             "what": f"the independent (Lean) decoder/encoder and the library disagree on this generated container, field {fi[0]}: library={trunc(str(fi[1]))!r} independent={trunc(str(fi[2]))!r}"})
     # ---- C verdict
     new_fails = []
     seen_known = {}
